@@ -13,6 +13,17 @@ def literal_shapes(tier):
     for base in ["1", "0", "01", "1.5", "1.", "10"]:
         for exp in ["", "0", "2", "02", "10"]:
             nums.append(base + "E" + exp)
+    # widths around the machine integer boundaries (u32: 10 digits, u64: 20, u128: 39), with and without leading
+    # zeros: a literal must not be routed through a fixed-width integer
+    for width in (9, 10, 11, 19, 20, 21, 38, 39, 40):
+        for body in ("1" + "0" * (width - 1), "9" * width, "1" * width):
+            for zeros in ("", "0", "000"):
+                nums.append(zeros + body)
+        nums.append("0" * width)
+        nums.append("0" * width + "7")
+        nums.append("1E" + "0" * width + "2")
+        nums.append("0" * width + "1E2")
+        nums.append("0" * width + ".5")
     n = 0
     for lit in nums:
         for ctx, src in (("init", "def x := %s\n" % lit), ("init-ann", "def x: Int := %s\n" % lit), ("arg", "print(%s)\n" % lit),
